@@ -1,10 +1,10 @@
 SPECIFICATION Spec
 CONSTANTS
   NeSet = {1, 2, 3}
-  NpgSet = {1, 2, 3}
+  NpgSet = {1, 3}
   Dims = {2, 3}
-  MaxRank = 4
-  Ops = {"matmul", "dot", "ddot"}
+  MaxRank = 3
+  Ops = {"tensorprod"}
   Emit = TRUE
 INVARIANT TypeRule
 INVARIANT EmitOK
